@@ -131,6 +131,27 @@ def alphabet(seed_):
     render('ppm_grey', 'ppm', dark='gray', light='silver')
     render('txt', 'txt')
     render('xbm_s2', 'xbm', scale=2)
+    # the extremes of the version range (tables indexed by the version constant: M1 = -3 ... 40)
+    for v in (38, 39, 40):
+        add(f'big_v{v}', 'make', 'TEST', version=v)
+    add('sparse_v12a', 'make', 'A', version=12)
+    add('sparse_v12b', 'make', 'B', version=12, error='M')
+    add('sparse_v22', 'make', 'C', version=22)
+    add('big_m1_v', 'make', '123', version='M1')
+    add('big_m2_v', 'make', '123', version='M2')
+    add('big_m3_v', 'make', '123', version='M3')
+    add('big_m4_v', 'make', '123', version='M4')
+    # arguments that compare equal but mean different things (1 == 1.0 == True): a cache keyed by the argument confuses them
+    for kind in ('svg', 'png', 'pdf', 'eps', 'ppm'):
+        render(f'{kind}_alpha_int1', kind, dark=(0, 0, 139, 1))
+        render(f'{kind}_alpha_float1', kind, dark=(0, 0, 139, 1.0))
+    render('svg_scale_int', 'svg', scale=2)
+    render('svg_scale_float', 'svg', scale=2.0)
+    render('svg_scale_true', 'svg', scale=True)
+    render('png_dark_alpha_light_none', 'png', dark='#00008b80', light=None)
+    render('png_light_alpha_dark_none', 'png', dark=None, light=(255, 255, 0, 0.5))
+    render('png_both_none_finder', 'png', dark=None, light=None, finder_dark='#00f')
+    render('svg_dark_none', 'svg', dark=None, light='yellow')
     add('refused_overflow', 'make', 'x' * 30, version=1, error='H')
     add('refused_mode', 'make', 'abc', mode='numeric')
     return A
@@ -303,6 +324,24 @@ def history_obs(task):
     return o
 
 
+def soak_obs(task):
+    """the same call n times in this (freshly forked) process; logged: the first two calls, the last one and every call whose result
+    differs from the reference (so the trace stays small and every deviating step is judged by TLC)"""
+    name, A, ref, n = task
+    common.use_repo()
+    log = Log(ref, {name})
+    for i in range(n):
+        do_call(log, 't1', name, A[name])
+        st = log.steps[-1]
+        if (i < 2 or i == n - 1 or st['result'] != ref.get(name)) and len(log.steps) <= 40:
+            continue                  # the step and its result stay in the log (the result is digested again at every later logged step)
+        log.steps.pop()
+        log.returned.pop()
+    o = log.obs(f'soak: {name} x {n}')
+    o['_task'] = {'type': 'soak', 'name': name, 'n': n}
+    return o
+
+
 # ------------------------------------------------------------------ thread schedules (deterministic baton scheduler)
 class Baton:
     """Runs threads one at a time; a thread hands over after its quota of traced line events inside segno."""
@@ -406,9 +445,10 @@ def function_entry_events(c):
 
 def schedule_obs(task):
     """two (or more) threads execute one call each under the plan; returns the log"""
-    names, A, ref, plan, what = task
+    names, A, ref, plan, what = task[:5]
+    after = list(task[5]) if len(task) > 5 else []     # calls made sequentially after all threads have finished (what did the race leave behind?)
     common.use_repo()
-    log = Log(ref, set(names))
+    log = Log(ref, set(names) | set(after))
     prefix = os.path.join(os.path.realpath(common.REPO), 'segno')
     baton = Baton(plan, len(names))
     lock = threading.Lock()
@@ -450,10 +490,12 @@ def schedule_obs(task):
         t.join(timeout=300)
     if any(t.is_alive() for t in threads):
         raise common.MachineryError('scheduler deadlock in ' + what)
+    for n in after:
+        do_call(log, 't1', n, A[n])
     log.steps.append({'thread': 't1', 'what': 'run', 'call': names[0], 'tables': tables_digest(), 'symbols': [result_digest(x) for x in log.returned],
                       'args_before': '', 'args_after': '', 'result': 'none'})
     o = log.obs(what)
-    o['_task'] = {'type': 'schedule', 'names': names, 'plan': plan, 'what': what}
+    o['_task'] = {'type': 'schedule', 'names': names, 'plan': plan, 'what': what, 'after': after}
     return o
 
 
@@ -513,6 +555,11 @@ def free_running_obs(task):
 
 
 # ------------------------------------------------------------------ the check
+def AFTER(nm):
+    """calls made after the threads of a schedule have finished: both calls again, and a larger, sparsely filled symbol"""
+    return list(nm) + ['sparse_v22']
+
+
 def run_c15(rep, tier):
     seed_ = common.seed()
     r = gen.rng(seed_, 'C15')
@@ -535,7 +582,7 @@ def run_c15(rep, tier):
     rep.notes['alphabet_size'] = len(A)
     names = sorted(A)
     # (c) sequential histories: all ordered pairs (thorough: plus triples sample), each in a freshly forked process
-    small = [n for n in names if n not in ('v20', 'v20b', 'v10', 'v10b')]
+    small = [n for n in names if n not in ('v20', 'v20b', 'v10', 'v10b') and not n.startswith('big_') and not n.startswith('sparse_')]
     tasks = []
     for a in names:
         for b in names:
@@ -545,9 +592,17 @@ def run_c15(rep, tier):
     for _ in range(60 if tier == 'quick' else 2000):
         k = r.randint(3, 6)
         tasks.append(([r.choice(small) for _ in range(k)], A, ref, True))
+    # (c2) the extremes of the version range in both orders, and equal-comparing arguments in both orders
+    bigs = [n for n in names if n.startswith('big_')]
+    for a in bigs:
+        for b in bigs:
+            if a != b and (a.startswith('big_v') != b.startswith('big_v') or tier == 'thorough'):
+                tasks.append(([a, b], A, ref, False))
+    # (c3) soak: the same call 160 (thorough: 600) times in one process - nothing is used up, nothing accumulates
+    soak_tasks = [(n, A, ref, 160 if tier == 'quick' else 600) for n in names if A[n]['api'] == 'render' or n in ('hello_auto', 'm1', 'kanji', 'parts_mixed', 'seq_sc3')]
     # (d) thread schedules from TLC, mapped onto line events, on pairs of calls (same size symbols first)
     pairs = [('v5', 'v5b'), ('hello_L', 'hello_noboost_L'), ('hello_mask0', 'hello_mask3'), ('byte17', 'u17_utf8_eci'), ('m3', 'm4q'), ('digits', 'digits_qr'),
-             ('v10', 'v10b'), ('parts_user_alice', 'user'), ('kanji', 'hanzi'), ('hello_M', 'v5'), ('seq_sc3', 'seq_sc3_q')]
+             ('v10', 'v10b'), ('parts_user_alice', 'user'), ('kanji', 'hanzi'), ('hello_M', 'v5'), ('seq_sc3', 'seq_sc3_q'), ('sparse_v12a', 'sparse_v12b')]
     common.use_repo()
     # dry runs (line-event counts, function entry points) happen in forked helper processes: the parent must stay free of any
     # call history, otherwise the workers forked from it would inherit warm caches and never see a first use
@@ -570,16 +625,16 @@ def run_c15(rep, tier):
         if len(tl) < 2:
             continue
         plan, _ = plan_from_tlc(sv['schedule'], [evcount[nm[0]], evcount[nm[1]]])
-        sched_tasks.append((nm, A, ref, plan, f'TLC schedule #{k * step} ({sv["switches"]} switches) on {nm}'))
+        sched_tasks.append((nm, A, ref, plan, f'TLC schedule #{k * step} ({sv["switches"]} switches) on {nm}', AFTER(nm)))
     # (d2) single pre-emption sweep: thread 1 is paused at every function entry (+ a few lines) and at a grid of evenly spaced
     #      points, thread 2 runs to completion, thread 1 finishes (the one-switch schedules of the model at fine resolution)
-    sweep_pairs = [('v5', 'v5b'), ('hello_L', 'hello_noboost_L'), ('m3', 'm4q'), ('v10', 'v10b')] if tier == 'quick' else pairs
+    sweep_pairs = [('v5', 'v5b'), ('hello_L', 'hello_noboost_L'), ('m3', 'm4q'), ('v10', 'v10b'), ('sparse_v12a', 'sparse_v12b')] if tier == 'quick' else pairs
     grid = 48 if tier == 'quick' else 200
     for pa, pb in sweep_pairs:
         entries, total = entry_info[pa]
         pts = set(entries) | {e + 3 for e in entries} | {max(1, (i * total) // grid) for i in range(1, grid)}
         for pt in sorted(x for x in pts if 0 < x < total):
-            sched_tasks.append(([pa, pb], A, ref, [[0, pt], [1, 10 ** 9], [0, 10 ** 9]], f'single pre-emption of {pa} after {pt} of {total} line events, then {pb}'))
+            sched_tasks.append(([pa, pb], A, ref, [[0, pt], [1, 10 ** 9], [0, 10 ** 9]], f'single pre-emption of {pa} after {pt} of {total} line events, then {pb}', AFTER([pa, pb])))
     # (e) seeded line-level pre-emption fuzzing
     nfuzz = 120 if tier == 'quick' else 3000
     for k in range(nfuzz):
@@ -593,11 +648,12 @@ def run_c15(rep, tier):
             plan.append([i, q])
             budget += q
             i = 1 - i
-        sched_tasks.append(([p[0], p[1]], A, ref, plan, f'line-level fuzz #{k} on {list(p)}'))
-    rep.evaluations = len(tasks) + len(sched_tasks)
+        sched_tasks.append(([p[0], p[1]], A, ref, plan, f'line-level fuzz #{k} on {list(p)}', AFTER(list(p))))
+    rep.evaluations = len(tasks) + len(sched_tasks) + len(soak_tasks)
     ctx = mp.get_context('fork')
     with ctx.Pool(common.NCPU, maxtasksperchild=1) as pool:
         obs = pool.map(history_obs, tasks, chunksize=1)
+        obs += pool.map(soak_obs, soak_tasks, chunksize=1)
         obs += pool.map(schedule_obs, sched_tasks, chunksize=1)
         if tier == 'thorough':
             fr = [([p[0], p[1], p[0]], A, ref, 20, f'free running threads on {list(p)}') for p in pairs]
@@ -637,13 +693,15 @@ def replay(pid, d):
         return 1
     A = alphabet(d.get('seed', 0))
     with ThreadPoolExecutor(max_workers=4) as ex:
-        ref = dict(ex.map(fresh_reference, [(n, A[n]) for n in sorted(set(t['names']))]))
+        ref = dict(ex.map(fresh_reference, [(n, A[n]) for n in sorted(set((t.get('names') or [t['name']]) + t.get('after', [])))]))
     ctx = mp.get_context('fork')
     with ctx.Pool(1, maxtasksperchild=1) as pool:
-        if t['type'] == 'history':
+        if t['type'] == 'soak':
+            o = pool.apply(soak_obs, ((t['name'], A, ref, t['n']),))
+        elif t['type'] == 'history':
             o = pool.apply(history_obs, ((t['names'], A, ref, t.get('extra', True)),))
         else:
-            o = pool.apply(schedule_obs, ((t['names'], A, ref, t['plan'], t['what']),))
+            o = pool.apply(schedule_obs, ((t['names'], A, ref, t['plan'], t['what'], t.get('after', [])),))
     verdicts, _ = common.validate_observations(pid + '_replay', 'Trace_Purity', [o], shards=1, tag='purity')
     v = verdicts[o['tid']]
     fails = sorted(c for (p, c) in v['fails'])
